@@ -533,9 +533,10 @@ func (d *Driver) Check(only []Case) int {
 				obs[k] += v
 			}
 		}
-		if o.Sample != nil && sampleKinds[o.Kind] < 2 && len(samples) < 8 {
+		// samples: prefer cases that exercised a non-trivial situation (they carry signatures)
+		if o.Sample != nil && len(o.Sigs) > 0 && sampleKinds[o.Kind] < 2 && len(samples) < 10 {
 			sampleKinds[o.Kind]++
-			samples = append(samples, map[string]any{"case": o.CaseID, "verdict": o.Verdict, "events": o.Events, "observed": o.Sample})
+			samples = append(samples, map[string]any{"case": o.CaseID, "verdict": o.Verdict, "events": o.Events, "observed": o.Sample, "signatures": o.Sigs})
 		}
 		switch o.Verdict {
 		case Held:
@@ -594,9 +595,19 @@ func (d *Driver) Check(only []Case) int {
 	floorMet := true
 	floorNotes := map[string]string{}
 	for k, min := range p.Floors {
+		if only != nil {
+			break // replaying a single case: floors do not apply
+		}
 		if obs[k] < min {
 			floorMet = false
 			floorNotes[k] = fmt.Sprintf("observed %d < floor %d", obs[k], min)
+		}
+	}
+	for i := range res.outcomes {
+		o := &res.outcomes[i]
+		if len(samples) < 3 && o.Sample != nil && sampleKinds[o.Kind] == 0 {
+			sampleKinds[o.Kind]++
+			samples = append(samples, map[string]any{"case": o.CaseID, "verdict": o.Verdict, "events": o.Events, "observed": o.Sample})
 		}
 	}
 	if len(samples) == 0 && len(res.outcomes) > 0 {
